@@ -484,7 +484,11 @@ impl<'t> RRIterator<'t> {
             .offset
             .expect("recompute() called prior to iterating over RRs");
         let name_end = Self::skip_name(self.parsed_packet.packet(), offset);
-        let offset_next = Self::skip_rdata(self.parsed_packet.packet(), name_end);
+        let offset_next = if self.section == Section::Question {
+            name_end + DNS_RR_QUESTION_HEADER_SIZE
+        } else {
+            Self::skip_rdata(self.parsed_packet.packet(), name_end)
+        };
         self.name_end = name_end;
         self.offset_next = offset_next;
     }
